@@ -55,6 +55,9 @@ type TracedLimit struct {
 
 // NewTracedLimit returns a new wrapped Limit with TracedLimit.
 func NewTracedLimit(limit core.Limit, logger Logger) *TracedLimit {
+	if logger == nil {
+		logger = NoopLimitLogger{}
+	}
 	return &TracedLimit{
 		limit:  limit,
 		logger: logger,
